@@ -11,6 +11,8 @@
 package main
 
 import (
+	"crypto/sha256"
+	"crypto/sha512"
 	"encoding/json"
 	"flag"
 	"fmt"
@@ -38,13 +40,28 @@ type AggV struct{ elems []Value }
 type TupleV struct{ elems []Value }
 type SliceV struct {
 	cells []*Cell
+	rest  []*Cell // spare capacity (cells between len and cap), shared with the backing array
 	nilS  bool
+}
+type StringV struct{ s string }
+
+// HashObj models a crypto hash instance as a trusted primitive (Go's standard library is outside the verified code):
+// concrete input is hashed for real, symbolic input yields opaque symbolic output bytes.
+type HashObj struct {
+	kind string
+	buf  []Value
 }
 type FuncV struct {
 	fn   *ssa.Function
 	free []Value
 }
 type NilV struct{}
+
+// IfaceV is a non-nil interface value: dynamic type and value.
+type IfaceV struct {
+	dyn types.Type
+	v   Value
+}
 type Unknown struct{ why string }
 
 // Cell is a node of a memory object: scalar (val) or aggregate (kids).
@@ -61,7 +78,7 @@ func zeroValue(t types.Type) Value {
 			return Conc{big.NewInt(0)}
 		}
 		if u.Info()&types.IsString != 0 {
-			return Unknown{"string"}
+			return StringV{""}
 		}
 		return Unknown{"basic " + u.String()}
 	case *types.Pointer, *types.Signature, *types.Interface, *types.Map, *types.Chan:
@@ -160,6 +177,18 @@ type Interp struct {
 	inInit  bool
 	depth   int
 	module  string
+	// declassification (constant-time mode): functions whose comparisons on secret-derived values are public by design
+	declass     map[string]bool
+	declassNow  bool
+	declassVal  bool
+	declassUsed int
+	// all interpreted package initialisers ran to completion: a variable nobody stored to holds its zero value
+	initComplete bool
+	curFn        string
+	// witness search: concrete values for the symbolic inputs, and the control-flow / memory-index trace of the run
+	concrete []uint64
+	trace    []string
+	tracing  bool
 }
 
 type frame struct {
@@ -232,7 +261,7 @@ func (in *Interp) constVal(c *ssa.Const) Value {
 		n, _ := width(c.Type())
 		return Conc{norm(bi, n)}
 	case constant.String:
-		return Unknown{"string const"}
+		return StringV{constant.StringVal(c.Value)}
 	}
 	return Unknown{"const " + c.Value.String()}
 }
@@ -274,7 +303,7 @@ func (in *Interp) global(g *ssa.Global) *Cell {
 	if !ok {
 		c = newCell(g.Type().(*types.Pointer).Elem())
 		// package-level variables are only trusted once the interpreted initialiser has stored into them
-		if g.Name() != "init$guard" {
+		if g.Name() != "init$guard" && !in.initComplete {
 			leaves(c, func(l *Cell) { l.val = Unknown{"package-level variable " + g.Name() + " not initialised by the interpreted init"} })
 		}
 		in.globals[g] = c
@@ -306,8 +335,28 @@ func (in *Interp) binop(op token.Token, x, y Value, t types.Type, xt types.Type)
 	case token.EQL, token.NEQ:
 		_, xn := x.(NilV)
 		_, yn := y.(NilV)
+		if sx, ok := x.(SliceV); ok {
+			if sy, ok := y.(SliceV); ok && (sx.nilS || sy.nilS) {
+				eq := sx.nilS && sy.nilS && len(sx.cells) == 0 && len(sy.cells) == 0
+				if sx.nilS != sy.nilS {
+					eq = false
+				}
+				if (op == token.EQL) == eq {
+					return Conc{big.NewInt(1)}
+				}
+				return Conc{big.NewInt(0)}
+			}
+		}
 		xp, xisp := x.(PtrV)
 		yp, yisp := y.(PtrV)
+		_, xi := x.(IfaceV)
+		_, yi := y.(IfaceV)
+		if (xi && yn) || (yi && xn) {
+			if op == token.EQL {
+				return Conc{big.NewInt(0)}
+			}
+			return Conc{big.NewInt(1)}
+		}
 		if xn || yn || xisp || yisp {
 			eq := (xn && yn) || (xisp && yisp && xp.c == yp.c)
 			if sx, ok := x.(SliceV); ok && yn {
@@ -322,6 +371,25 @@ func (in *Interp) binop(op token.Token, x, y Value, t types.Type, xt types.Type)
 			_ = sx
 			fail("slice comparison")
 		}
+	}
+	if xs, ok := x.(StringV); ok {
+		if ys, ok := y.(StringV); ok {
+			switch op {
+			case token.ADD:
+				return StringV{xs.s + ys.s}
+			case token.EQL:
+				if xs.s == ys.s {
+					return Conc{big.NewInt(1)}
+				}
+				return Conc{big.NewInt(0)}
+			case token.NEQ:
+				if xs.s != ys.s {
+					return Conc{big.NewInt(1)}
+				}
+				return Conc{big.NewInt(0)}
+			}
+		}
+		return Unknown{"string op"}
 	}
 	xc, xconc := x.(Conc)
 	yc, yconc := y.(Conc)
@@ -430,7 +498,7 @@ func (in *Interp) binop(op token.Token, x, y Value, t types.Type, xt types.Type)
 		}
 		if yc.v.Cmp(big.NewInt(int64(n))) >= 0 {
 			if op == token.SHR && signed {
-				fail("arithmetic shift of symbolic signed value")
+				fail("arithmetic shift of a symbolic signed value by >= its width")
 			}
 			return Conc{big.NewInt(0)}
 		}
@@ -440,7 +508,15 @@ func (in *Interp) binop(op token.Token, x, y Value, t types.Type, xt types.Type)
 		}
 		if op == token.SHR {
 			if signed {
-				fail("arithmetic shift of symbolic signed value")
+				// arithmetic shift of the n-bit two's-complement pattern u: with the biased value b = (u + 2^(n-1)) mod 2^n
+				// (= x + 2^(n-1) for the signed value x), floor(x / 2^k) = floor(b / 2^k) - 2^(n-1-k); back to a pattern mod 2^n.
+				half := new(big.Int).Lsh(big.NewInt(1), uint(n-1))
+				t1 := em.emit(Op{kind: "add", a: id(x), b: em.constant(half)})
+				t2 := em.emit(Op{kind: "low", a: t1, k: n})
+				t3 := em.emit(Op{kind: "shr", a: t2, k: k})
+				corr := new(big.Int).Sub(new(big.Int).Lsh(big.NewInt(1), uint(n)), new(big.Int).Lsh(big.NewInt(1), uint(n-1-k)))
+				t4 := em.emit(Op{kind: "add", a: t3, b: em.constant(corr)})
+				return SymV{em.emit(Op{kind: "low", a: t4, k: n})}
 			}
 			return SymV{em.emit(Op{kind: "shr", a: id(x), k: k})}
 		}
@@ -491,7 +567,15 @@ func (in *Interp) binop(op token.Token, x, y Value, t types.Type, xt types.Type)
 		}
 		return SymV{em.emit(Op{kind: "xor", a: id(x), b: id(y)})}
 	case token.EQL, token.NEQ, token.LSS, token.LEQ, token.GTR, token.GEQ:
-		fail("comparison %s on a symbolic (input-dependent) value", op)
+		if in.declassNow {
+			// a documented declassification point: the comparison result is public by design; explore it with the scripted value
+			in.declassUsed++
+			if in.declassVal {
+				return Conc{big.NewInt(1)}
+			}
+			return Conc{big.NewInt(0)}
+		}
+		fail("comparison %s on a symbolic (input-dependent) value in %s", op, in.curFn)
 	}
 	fail("unsupported symbolic binop %s", op)
 	return nil
@@ -503,8 +587,32 @@ func (in *Interp) convert(v Value, from, to types.Type) Value {
 	}
 	fb, ok1 := from.Underlying().(*types.Basic)
 	tb, ok2 := to.Underlying().(*types.Basic)
+	if sv, isStr := v.(StringV); isStr {
+		if st, ok := to.Underlying().(*types.Slice); ok {
+			out := SliceV{}
+			for i := 0; i < len(sv.s); i++ {
+				c := newCell(st.Elem())
+				c.val = Conc{big.NewInt(int64(sv.s[i]))}
+				out.cells = append(out.cells, c)
+			}
+			return out
+		}
+		return sv
+	}
+	if sl, isSl := v.(SliceV); isSl {
+		if tb2, ok := to.Underlying().(*types.Basic); ok && tb2.Info()&types.IsString != 0 {
+			b := make([]byte, len(sl.cells))
+			for i, c := range sl.cells {
+				cv, ok := c.val.(Conc)
+				if !ok {
+					return Unknown{"string of symbolic bytes"}
+				}
+				b[i] = byte(cv.v.Int64())
+			}
+			return StringV{string(b)}
+		}
+	}
 	if !ok1 || !ok2 || fb.Info()&types.IsInteger == 0 || tb.Info()&types.IsInteger == 0 {
-		// string([]byte), []byte(string) etc: not needed on the paths we interpret
 		return Unknown{fmt.Sprintf("convert %s -> %s", from, to)}
 	}
 	nf, sf := width(from)
@@ -521,7 +629,13 @@ func (in *Interp) convert(v Value, from, to types.Type) Value {
 			return SymV{in.em.emit(Op{kind: "low", a: x.id, k: nt})}
 		}
 		if nt > nf && sf {
-			fail("sign extension of a symbolic value (%s -> %s)", from, to)
+			// sign extension: b = (u + 2^(nf-1)) mod 2^nf = x + 2^(nf-1); x mod 2^nt = (b + 2^nt - 2^(nf-1)) mod 2^nt
+			half := new(big.Int).Lsh(big.NewInt(1), uint(nf-1))
+			t1 := in.em.emit(Op{kind: "add", a: x.id, b: in.em.constant(half)})
+			t2 := in.em.emit(Op{kind: "low", a: t1, k: nf})
+			corr := new(big.Int).Sub(new(big.Int).Lsh(big.NewInt(1), uint(nt)), half)
+			t3 := in.em.emit(Op{kind: "add", a: t2, b: in.em.constant(corr)})
+			return SymV{in.em.emit(Op{kind: "low", a: t3, k: nt})}
 		}
 		return x
 	}
@@ -539,9 +653,125 @@ func leaves(c *Cell, f func(*Cell)) {
 	f(c)
 }
 
-const maxSteps = 5_000_000
+const maxSteps = 50_000_000
+
+func (in *Interp) hashSum(h *HashObj) []Value {
+	conc := true
+	raw := make([]byte, len(h.buf))
+	for i, v := range h.buf {
+		c, ok := v.(Conc)
+		if !ok {
+			conc = false
+			break
+		}
+		raw[i] = byte(c.v.Int64())
+	}
+	n := map[string]int{"sha512": 64, "sha256": 32}[h.kind]
+	out := make([]Value, n)
+	if conc {
+		var d []byte
+		switch h.kind {
+		case "sha512":
+			x := sha512.Sum512(raw)
+			d = x[:]
+		case "sha256":
+			x := sha256.Sum256(raw)
+			d = x[:]
+		}
+		for i := range out {
+			out[i] = Conc{big.NewInt(int64(d[i]))}
+		}
+		return out
+	}
+	for i := range out {
+		out[i] = SymV{in.em.emit(Op{kind: "opaque"})}
+	}
+	return out
+}
+
+func (in *Interp) hashMethod(h *HashObj, name string, args []Value) Value {
+	switch name {
+	case "Write":
+		s, ok := args[0].(SliceV)
+		if !ok {
+			fail("hash.Write of %T", args[0])
+		}
+		for _, c := range s.cells {
+			h.buf = append(h.buf, c.load())
+		}
+		return TupleV{[]Value{Conc{big.NewInt(int64(len(s.cells)))}, NilV{}}}
+	case "Reset":
+		h.buf = nil
+		return nil
+	case "Size":
+		return Conc{big.NewInt(int64(map[string]int{"sha512": 64, "sha256": 32}[h.kind]))}
+	case "BlockSize":
+		return Conc{big.NewInt(int64(map[string]int{"sha512": 128, "sha256": 64}[h.kind]))}
+	case "Sum":
+		dst, _ := args[0].(SliceV)
+		d := in.hashSum(h)
+		if len(d) <= len(dst.rest) {
+			for i, v := range d {
+				dst.rest[i].store(v)
+			}
+			return SliceV{cells: append(append([]*Cell{}, dst.cells...), dst.rest[:len(d)]...), rest: dst.rest[len(d):]}
+		}
+		ns := SliceV{}
+		for _, c := range dst.cells {
+			nc := &Cell{typ: types.Typ[types.Uint8], val: c.load()}
+			ns.cells = append(ns.cells, nc)
+		}
+		for _, v := range d {
+			ns.cells = append(ns.cells, &Cell{typ: types.Typ[types.Uint8], val: v})
+		}
+		return ns
+	}
+	fail("unsupported hash method %s", name)
+	return nil
+}
 
 func (in *Interp) call(fn *ssa.Function, args []Value, free []Value) Value {
+	switch fn.String() {
+	case "crypto/sha512.New":
+		return IfaceV{v: &HashObj{kind: "sha512"}}
+	case "crypto/sha256.New":
+		return IfaceV{v: &HashObj{kind: "sha256"}}
+	case "(crypto.Hash).New", "(crypto.Hash).Size", "(crypto.Hash).Available", "(crypto.Hash).HashFunc":
+		id, ok := args[0].(Conc)
+		if !ok {
+			fail("crypto.Hash value is symbolic")
+		}
+		kind := map[int64]string{5: "sha256", 7: "sha512"}[id.v.Int64()]
+		switch fn.Name() {
+		case "HashFunc":
+			return args[0]
+		case "Available":
+			if kind != "" {
+				return Conc{big.NewInt(1)}
+			}
+			return Conc{big.NewInt(0)}
+		case "Size":
+			if kind == "" {
+				fail("crypto.Hash(%d).Size: only SHA-256 / SHA-512 are modelled", id.v.Int64())
+			}
+			return Conc{big.NewInt(int64(map[string]int{"sha512": 64, "sha256": 32}[kind]))}
+		}
+		if kind == "" {
+			fail("crypto.Hash(%d).New: only SHA-256 / SHA-512 are modelled", id.v.Int64())
+		}
+		return IfaceV{v: &HashObj{kind: kind}}
+	case "crypto/sha512.Sum512", "crypto/sha256.Sum256":
+		h := &HashObj{kind: map[string]string{"crypto/sha512.Sum512": "sha512", "crypto/sha256.Sum256": "sha256"}[fn.String()]}
+		in.hashMethod(h, "Write", args)
+		return AggV{in.hashSum(h)}
+	}
+	if fn.Pkg != nil && !in.inInit {
+		switch fn.Pkg.Pkg.Path() {
+		case "fmt", "errors":
+			// error construction on a failure path: an opaque non-nil value
+			return IfaceV{v: Unknown{"error value"}}
+		}
+	}
 	if r, ok := in.intrinsic(fn, args); ok {
 		return r
 	}
@@ -557,6 +787,13 @@ func (in *Interp) call(fn *ssa.Function, args []Value, free []Value) Value {
 	}
 	in.depth++
 	defer func() { in.depth-- }()
+	if in.declass[fn.String()] && !in.declassNow {
+		in.declassNow = true
+		defer func() { in.declassNow = false }()
+	}
+	if fn.Blocks == nil && (strings.HasPrefix(fn.String(), "crypto/internal/boring/sig.") || strings.HasPrefix(fn.String(), "crypto/internal/fips140deps/godebug.") || fn.String() == "runtime.KeepAlive") {
+		return nil
+	}
 	if fn.Blocks == nil {
 		if in.inInit {
 			return Unknown{"external " + fn.String()}
@@ -571,6 +808,9 @@ func (in *Interp) call(fn *ssa.Function, args []Value, free []Value) Value {
 	b := fn.Blocks[0]
 	for {
 		var next *ssa.BasicBlock
+		if in.tracing && len(in.trace) < 20_000_000 {
+			in.trace = append(in.trace, fmt.Sprintf("%s#%d", fn.Name(), b.Index))
+		}
 		// phis first (parallel assignment)
 		var phiVals []Value
 		var phis []*ssa.Phi
@@ -596,6 +836,7 @@ func (in *Interp) call(fn *ssa.Function, args []Value, free []Value) Value {
 		}
 		for _, ins := range b.Instrs[len(phis):] {
 			in.steps++
+			in.curFn = fn.String()
 			if in.steps > maxSteps {
 				fail("step limit exceeded")
 			}
@@ -624,6 +865,9 @@ func (in *Interp) call(fn *ssa.Function, args []Value, free []Value) Value {
 					fail("memory index depends on a symbolic (input-dependent) value in %s", fn.Name())
 				}
 				i := int(idx.v.Int64())
+				if in.tracing && len(in.trace) < 20_000_000 {
+					in.trace = append(in.trace, fmt.Sprintf("%s[idx %d]", fn.Name(), i))
+				}
 				switch base := in.get(f, x.X).(type) {
 				case PtrV:
 					if i < 0 || i >= len(base.c.kids) {
@@ -642,6 +886,10 @@ func (in *Interp) call(fn *ssa.Function, args []Value, free []Value) Value {
 				idx, ok := in.get(f, x.Index).(Conc)
 				if !ok {
 					fail("array index depends on a symbolic (input-dependent) value in %s", fn.Name())
+				}
+				if sv, isStr := in.get(f, x.X).(StringV); isStr {
+					f.locals[x] = Conc{big.NewInt(int64(sv.s[int(idx.v.Int64())]))}
+					continue
 				}
 				a, ok := in.get(f, x.X).(AggV)
 				if !ok {
@@ -716,7 +964,40 @@ func (in *Interp) call(fn *ssa.Function, args []Value, free []Value) Value {
 				}
 				f.locals[x] = FuncV{fn: x.Fn.(*ssa.Function), free: fv}
 			case *ssa.MakeInterface:
-				f.locals[x] = Unknown{"interface"}
+				f.locals[x] = IfaceV{dyn: x.X.Type(), v: in.get(f, x.X)}
+			case *ssa.ChangeInterface:
+				f.locals[x] = in.get(f, x.X)
+			case *ssa.TypeAssert:
+				v := in.get(f, x.X)
+				iv, isI := v.(IfaceV)
+				okA := false
+				var res Value = zeroValueOrAgg(x.AssertedType)
+				if isI {
+					if types.IsInterface(x.AssertedType) {
+						okA = types.Implements(iv.dyn, x.AssertedType.Underlying().(*types.Interface))
+						if okA {
+							res = iv
+						}
+					} else if types.Identical(iv.dyn, x.AssertedType) {
+						okA = true
+						res = iv.v
+					}
+				} else if _, u := v.(Unknown); u {
+					f.locals[x] = v
+					continue
+				}
+				if x.CommaOk {
+					b := big.NewInt(0)
+					if okA {
+						b = big.NewInt(1)
+					}
+					f.locals[x] = TupleV{[]Value{res, Conc{b}}}
+				} else {
+					if !okA {
+						fail("failed type assertion to %s in %s", x.AssertedType, fn.Name())
+					}
+					f.locals[x] = res
+				}
 			case *ssa.MakeSlice:
 				n, ok := in.get(f, x.Len).(Conc)
 				if !ok {
@@ -726,6 +1007,13 @@ func (in *Interp) call(fn *ssa.Function, args []Value, free []Value) Value {
 				s := SliceV{}
 				for i := int64(0); i < n.v.Int64(); i++ {
 					s.cells = append(s.cells, newCell(et))
+				}
+				if cp, ok := in.get(f, x.Cap).(Conc); ok {
+					for i := n.v.Int64(); i < cp.v.Int64(); i++ {
+						s.rest = append(s.rest, newCell(et))
+					}
+				} else {
+					fail("make([]T, n, c) with a symbolic capacity")
 				}
 				f.locals[x] = s
 			case *ssa.Call:
@@ -761,7 +1049,7 @@ func (in *Interp) call(fn *ssa.Function, args []Value, free []Value) Value {
 				fail("reached panic(...) in %s", fn.Name())
 			case *ssa.DebugRef:
 			case *ssa.RunDefers:
-			case *ssa.TypeAssert, *ssa.ChangeInterface, *ssa.Lookup, *ssa.MakeMap, *ssa.MapUpdate, *ssa.Range, *ssa.Next, *ssa.Defer, *ssa.Go, *ssa.Send, *ssa.Select, *ssa.MakeChan, *ssa.SliceToArrayPointer:
+			case *ssa.Lookup, *ssa.MakeMap, *ssa.MapUpdate, *ssa.Range, *ssa.Next, *ssa.Defer, *ssa.Go, *ssa.Send, *ssa.Select, *ssa.MakeChan, *ssa.SliceToArrayPointer:
 				if v, ok := ins.(ssa.Value); ok {
 					f.locals[v] = Unknown{fmt.Sprintf("%T", ins)}
 				}
@@ -777,36 +1065,48 @@ func (in *Interp) call(fn *ssa.Function, args []Value, free []Value) Value {
 }
 
 func (in *Interp) slice(f *frame, x *ssa.Slice) Value {
-	var cells []*Cell
+	var cells, rest []*Cell
 	switch base := in.get(f, x.X).(type) {
 	case PtrV:
 		cells = base.c.kids
 	case SliceV:
-		cells = base.cells
+		cells, rest = base.cells, base.rest
+	case StringV:
+		lo, hi := 0, len(base.s)
+		if x.Low != nil {
+			lo = int(in.get(f, x.Low).(Conc).v.Int64())
+		}
+		if x.High != nil {
+			hi = int(in.get(f, x.High).(Conc).v.Int64())
+		}
+		return StringV{base.s[lo:hi]}
 	case Unknown:
 		return base
 	default:
 		fail("slice of %T", base)
 	}
-	lo, hi := 0, len(cells)
-	if x.Low != nil {
-		c, ok := in.get(f, x.Low).(Conc)
+	all := append(append([]*Cell{}, cells...), rest...)
+	lo, hi, max := 0, len(cells), len(all)
+	bound := func(v ssa.Value) int {
+		c, ok := in.get(f, v).(Conc)
 		if !ok {
-			fail("slice bound depends on a symbolic value")
+			fail("slice bound depends on a symbolic (input-dependent) value in %s", f.fn.Name())
 		}
-		lo = int(c.v.Int64())
+		return int(c.v.Int64())
+	}
+	if x.Low != nil {
+		lo = bound(x.Low)
 	}
 	if x.High != nil {
-		c, ok := in.get(f, x.High).(Conc)
-		if !ok {
-			fail("slice bound depends on a symbolic value")
-		}
-		hi = int(c.v.Int64())
+		hi = bound(x.High)
 	}
-	if lo < 0 || hi > len(cells) || lo > hi {
-		fail("slice bounds out of range [%d:%d] of %d in %s", lo, hi, len(cells), f.fn.Name())
+	if x.Max != nil {
+		max = bound(x.Max)
 	}
-	return SliceV{cells: cells[lo:hi]}
+	if lo < 0 || hi > len(all) || lo > hi || max > len(all) || hi > max {
+		fail("slice bounds out of range [%d:%d:%d] of %d in %s", lo, hi, max, len(all), f.fn.Name())
+	}
+	return SliceV{cells: all[lo:hi], rest: all[hi:max]}
 }
 
 func (in *Interp) doCall(f *frame, c *ssa.CallCommon) Value {
@@ -815,10 +1115,21 @@ func (in *Interp) doCall(f *frame, c *ssa.CallCommon) Value {
 		args = append(args, in.get(f, a))
 	}
 	if c.IsInvoke() {
-		if in.inInit {
-			return Unknown{"invoke"}
+		iv, ok := in.get(f, c.Value).(IfaceV)
+		if !ok {
+			if in.inInit {
+				return Unknown{"invoke"}
+			}
+			fail("interface method call %s on %T", c.Method.Name(), in.get(f, c.Value))
 		}
-		fail("interface method call %s", c.Method.Name())
+		if h, isH := iv.v.(*HashObj); isH {
+			return in.hashMethod(h, c.Method.Name(), args)
+		}
+		m := in.prog.LookupMethod(iv.dyn, c.Method.Pkg(), c.Method.Name())
+		if m == nil {
+			fail("method %s not found on %s", c.Method.Name(), iv.dyn)
+		}
+		return in.call(m, append([]Value{iv.v}, args...), nil)
 	}
 	switch callee := c.Value.(type) {
 	case *ssa.Builtin:
@@ -826,13 +1137,70 @@ func (in *Interp) doCall(f *frame, c *ssa.CallCommon) Value {
 		case "len", "cap":
 			switch a := args[0].(type) {
 			case SliceV:
+				if callee.Name() == "cap" {
+					return Conc{big.NewInt(int64(len(a.cells) + len(a.rest)))}
+				}
 				return Conc{big.NewInt(int64(len(a.cells)))}
+			case StringV:
+				return Conc{big.NewInt(int64(len(a.s)))}
 			case Unknown:
 				return a
 			}
 			fail("len of %T", args[0])
+		case "append":
+			dst, ok := args[0].(SliceV)
+			if !ok {
+				return Unknown{"append"}
+			}
+			var vals []Value
+			switch src := args[1].(type) {
+			case SliceV:
+				for _, c := range src.cells {
+					vals = append(vals, c.load())
+				}
+			case StringV:
+				for i := 0; i < len(src.s); i++ {
+					vals = append(vals, Conc{big.NewInt(int64(src.s[i]))})
+				}
+			default:
+				return Unknown{"append"}
+			}
+			if len(vals) <= len(dst.rest) {
+				for i, v := range vals {
+					dst.rest[i].store(v)
+				}
+				return SliceV{cells: append(append([]*Cell{}, dst.cells...), dst.rest[:len(vals)]...), rest: dst.rest[len(vals):]}
+			}
+			var et types.Type
+			if st, ok := c.Args[0].Type().Underlying().(*types.Slice); ok {
+				et = st.Elem()
+			} else {
+				return Unknown{"append"}
+			}
+			ns := SliceV{}
+			for _, c := range dst.cells {
+				nc := newCell(et)
+				nc.store(c.load())
+				ns.cells = append(ns.cells, nc)
+			}
+			for _, v := range vals {
+				nc := newCell(et)
+				nc.store(v)
+				ns.cells = append(ns.cells, nc)
+			}
+			return ns
 		case "copy":
 			d, ok1 := args[0].(SliceV)
+			if str, isStr := args[1].(StringV); isStr && ok1 {
+				n := len(d.cells)
+				if len(str.s) < n {
+					n = len(str.s)
+				}
+				for i := 0; i < n; i++ {
+					d.cells[i].store(Conc{big.NewInt(int64(str.s[i]))})
+				}
+				return Conc{big.NewInt(int64(n))}
+			}
 			s, ok2 := args[1].(SliceV)
 			if !ok1 || !ok2 {
 				return Unknown{"copy"}
@@ -1000,6 +1368,10 @@ type Target struct {
 	Fn    string   `json:"fn"`    // "feMulGeneric" or "(*Element).reduce"
 	Args  []string `json:"args"`  // per parameter: in | out | inout | const:<n> | sym | inbytes:<n> | outbytes:<n> | zero
 	Ret   string   `json:"ret"`   // "" | "out": integer leaves of the result value are outputs
+	// constant-time mode (-ct): "ct" = must translate (no input-dependent branch / index / shift / length),
+	// "leak" = negative control: a variable-time routine that must be REJECTED (sanity check of the detector)
+	Expect  string   `json:"expect"`
+	Declass []string `json:"declass"` // functions (ssa names) in which comparisons on symbolic values are documented declassifications
 }
 
 type Result struct {
@@ -1039,6 +1411,20 @@ func findFunc(pkg *ssa.Package, name string) *ssa.Function {
 }
 
 func translate(prog *ssa.Program, pkg *ssa.Package, globals map[*ssa.Global]*Cell, t Target) (res Result) {
+	res = translate1(prog, pkg, globals, t, false)
+	if len(t.Declass) > 0 && res.Err == "" {
+		// explore the other outcome of the declassified comparisons too
+		r2 := translate1(prog, pkg, globals, t, true)
+		if r2.Err != "" {
+			r2.Err = "(declassified comparisons = true) " + r2.Err
+			return r2
+		}
+		res.Ops = append(res.Ops, r2.Ops...)
+	}
+	return res
+}
+
+func translate1(prog *ssa.Program, pkg *ssa.Package, globals map[*ssa.Global]*Cell, t Target, declassVal bool) (res Result) {
 	res.T = t
 	defer func() {
 		if e := recover(); e != nil {
@@ -1054,7 +1440,10 @@ func translate(prog *ssa.Program, pkg *ssa.Package, globals map[*ssa.Global]*Cel
 		fail("function %s not found in %s", t.Fn, t.Pkg)
 	}
 	em := &Emitter{consts: map[string]int{}}
-	in := &Interp{prog: prog, em: em, globals: globals}
+	in := &Interp{prog: prog, em: em, globals: globals, declass: map[string]bool{}, declassVal: declassVal, initComplete: initCompleteGlobal}
+	for _, d := range t.Declass {
+		in.declass[d] = true
+	}
 	if len(t.Args) != len(fn.Params) {
 		fail("target %s: %d arg specs for %d parameters", t.Name, len(t.Args), len(fn.Params))
 	}
@@ -1065,7 +1454,14 @@ func translate(prog *ssa.Program, pkg *ssa.Package, globals map[*ssa.Global]*Cel
 		res.InBits = append(res.InBits, n)
 		id := em.nin
 		em.nin++
+		if concreteInputs != nil {
+			v := new(big.Int).SetUint64(concreteInputs[id%len(concreteInputs)])
+			return Conc{norm(v, n)}
+		}
 		return SymV{id}
+	}
+	if concreteInputs != nil {
+		in.tracing = true
 	}
 	// inputs must be numbered before any op is emitted
 	for i, spec := range t.Args {
@@ -1096,6 +1492,48 @@ func translate(prog *ssa.Program, pkg *ssa.Package, globals map[*ssa.Global]*Cel
 				})
 			}
 			args = append(args, PtrV{c})
+		case "mix":
+			// a byte slice made of segments: sN = N symbolic (secret) bytes, cN = N concrete (public) bytes
+			sl := SliceV{}
+			et := pt.Underlying().(*types.Slice).Elem()
+			for _, seg := range strings.Split(param, ",") {
+				var n int
+				fmt.Sscanf(seg[1:], "%d", &n)
+				for j := 0; j < n; j++ {
+					c := newCell(et)
+					if seg[0] == 's' {
+						c.val = newSym(et)
+					} else {
+						c.val = Conc{big.NewInt(int64((len(sl.cells)*7 + 1) & 0xff))}
+					}
+					sl.cells = append(sl.cells, c)
+				}
+			}
+			args = append(args, sl)
+		case "inptrs":
+			// a slice of N pointers to fresh objects whose integer leaves are all symbolic
+			var n int
+			fmt.Sscanf(param, "%d", &n)
+			et := pt.Underlying().(*types.Slice).Elem()
+			sl := SliceV{}
+			for j := 0; j < n; j++ {
+				obj := newCell(et.Underlying().(*types.Pointer).Elem())
+				leaves(obj, func(l *Cell) {
+					if b, ok := l.typ.Underlying().(*types.Basic); ok && b.Info()&types.IsInteger != 0 {
+						l.val = newSym(l.typ)
+					}
+				})
+				pc := newCell(et)
+				pc.val = PtrV{obj}
+				sl.cells = append(sl.cells, pc)
+			}
+			args = append(args, sl)
+		case "global":
+			m, ok := pkg.Members[param].(*ssa.Global)
+			if !ok {
+				fail("no package-level variable %s", param)
+			}
+			args = append(args, in.global(m).load())
 		case "const":
 			bi, ok := new(big.Int).SetString(param, 10)
 			if !ok {
@@ -1126,6 +1564,7 @@ func translate(prog *ssa.Program, pkg *ssa.Package, globals map[*ssa.Global]*Cel
 	}
 	res.Wrap = genWrap(fn, t)
 	ret := in.call(fn, args, nil)
+	lastTrace = in.trace
 	var outVals []Value
 	var outTypes []types.Type
 	for _, c := range outCells {
@@ -1147,6 +1586,12 @@ func translate(prog *ssa.Program, pkg *ssa.Package, globals map[*ssa.Global]*Cel
 			case *types.Tuple:
 				for i, e := range v.(TupleV).elems {
 					walk(e, u.At(i).Type())
+				}
+			case *types.Slice:
+				if sl, ok := v.(SliceV); ok {
+					for _, c := range sl.cells {
+						walk(c.load(), u.Elem())
+					}
 				}
 			case *types.Basic:
 				if u.Info()&types.IsInteger != 0 {
@@ -1280,6 +1725,8 @@ func opLean(o Op) string {
 		return fmt.Sprintf(".subw %d %d %d", o.a, o.b, o.k)
 	case "shr", "shl", "low", "wrap":
 		return fmt.Sprintf(".%s %d %d", o.kind, o.a, o.k)
+	case "opaque":
+		panic("opaque values (hash outputs) are only allowed in constant-time mode")
 	}
 	panic("bad op " + o.kind)
 }
@@ -1292,9 +1739,18 @@ func main() {
 		leanDir = flag.String("lean", "", "output directory for Voi/Gen/*.lean")
 		txt     = flag.String("txt", "", "output text file (programs for the driver)")
 		module  = flag.String("module", "github.com/oasisprotocol/curve25519-voi", "module path")
+		witness = flag.String("witness", "", "constant-time witness search for the named target (name@tags): run it on pairs of concrete secrets and compare control-flow/index traces; writes a replay file")
+		witOut  = flag.String("witness-out", "", "replay file for -witness")
+		overlay = flag.String("overlay", "", "directory whose files are grafted onto the repository tree (export/<pkg path>/*.go, build tag verif)")
+		ctOut   = flag.String("ct", "", "constant-time mode: translate every target, write only a summary (json) to this file")
 		gowrap  = flag.String("gowrap", "", "output directory for generated Go wrappers (export/<pkg>/verif_t0_<group>.go) used by stream T0")
+		globals = flag.String("globals", "", "comma separated <pkg>:<tags>:<LeanGroup> triples: dump every package-level variable after interpreting the initialisers")
 	)
 	flag.Parse()
+	if *globals != "" {
+		dumpGlobals(*repo, *module, *globals, *leanDir)
+		return
+	}
 	var ts []Target
 	b, err := os.ReadFile(*targets)
 	if err != nil {
@@ -1316,8 +1772,20 @@ func main() {
 	}
 	var results []Result
 	for _, k := range keys {
-		cfg := &packages.Config{Mode: packages.LoadAllSyntax, Dir: *repo, BuildFlags: []string{"-tags=" + k.tags},
+		cfg := &packages.Config{Mode: packages.LoadAllSyntax, Dir: *repo, BuildFlags: []string{"-tags=" + strings.ReplaceAll(k.tags, " ", ",")},
 			Env: append(os.Environ(), "GOFLAGS=-mod=mod", "GOPROXY=off", "GOSUMDB=off", "GOTOOLCHAIN=local")}
+		if *overlay != "" {
+			cfg.BuildFlags = []string{"-tags=verif," + strings.ReplaceAll(k.tags, " ", ",")}
+			cfg.Overlay = map[string][]byte{}
+			filepath.Walk(*overlay, func(p string, fi os.FileInfo, err error) error {
+				if err == nil && !fi.IsDir() && strings.HasSuffix(p, ".go") && !strings.Contains(filepath.Base(p), "verif_t0") {
+					rel, _ := filepath.Rel(*overlay, p)
+					b, _ := os.ReadFile(p)
+					cfg.Overlay[filepath.Join(*repo, rel)] = b
+				}
+				return nil
+			})
+		}
 		pkgs, err := packages.Load(cfg, *module+"/"+k.pkg)
 		if err != nil || len(pkgs) != 1 || len(pkgs[0].Errors) > 0 {
 			msg := fmt.Sprint(err)
@@ -1359,6 +1827,31 @@ func main() {
 				fmt.Fprintf(os.Stderr, "go2ir: init of %s (tags %q) stopped: %s\n", sp.Pkg.Path(), k.tags, e)
 			}
 		}
+		if initErr == "" {
+			initCompleteGlobal = true
+			for _, c := range globals {
+				leaves(c, func(l *Cell) {
+					if u, ok := l.val.(Unknown); ok && strings.HasPrefix(u.why, "package-level variable") {
+						l.val = zeroValue(l.typ)
+					}
+				})
+			}
+		} else {
+			initCompleteGlobal = false
+		}
+		if *witness != "" {
+			for _, t := range byKey[k] {
+				if t.Name+"@"+t.Tags != *witness {
+					continue
+				}
+				found := witnessSearch(prog, spkg, globals, t, *witOut)
+				if found {
+					os.Exit(3)
+				}
+				os.Exit(0)
+			}
+			continue
+		}
 		for _, t := range byKey[k] {
 			r := translate(prog, spkg, globals, t)
 			if r.Err != "" && initErr != "" {
@@ -1366,6 +1859,39 @@ func main() {
 			}
 			results = append(results, r)
 		}
+	}
+	if *ctOut != "" {
+		type ctRes struct {
+			Name, Pkg, Fn, Tags, Expect, Err string
+			Ok                                bool
+			Ops, Inputs                       int
+		}
+		var out []ctRes
+		for _, r := range results {
+			out = append(out, ctRes{Name: r.T.Name, Pkg: r.T.Pkg, Fn: r.T.Fn, Tags: r.T.Tags, Expect: r.T.Expect, Err: r.Err, Ok: r.Err == "", Ops: len(r.Ops), Inputs: r.Nin})
+		}
+		js, _ := json.MarshalIndent(out, "", " ")
+		os.MkdirAll(filepath.Dir(*ctOut), 0o755)
+		if err := os.WriteFile(*ctOut, js, 0o644); err != nil {
+			panic(err)
+		}
+		if *leanDir != "" {
+			var sb strings.Builder
+			sb.WriteString("/- GENERATED by go2ir -ct: outcome of translating each constant-time entry point with ALL secret inputs symbolic.\n   (name, translated, expected to translate, #IR instructions) — do not edit, never committed. -/\nnamespace Voi.Gen.CT\n\ndef results : List (String × Bool × Bool × Nat) := [\n")
+			for i, r := range out {
+				sep := ","
+				if i == len(out)-1 {
+					sep = ""
+				}
+				fmt.Fprintf(&sb, "  (%q, %v, %v, %d)%s\n", r.Name+"@"+r.Tags, r.Ok, r.Expect != "leak", r.Ops, sep)
+			}
+			sb.WriteString("]\n\nend Voi.Gen.CT\n")
+			os.MkdirAll(*leanDir, 0o755)
+			if err := os.WriteFile(filepath.Join(*leanDir, "CT.lean"), []byte(sb.String()), 0o644); err != nil {
+				panic(err)
+			}
+		}
+		return
 	}
 	// ---- render
 	groups := map[string][]Result{}
@@ -1461,4 +1987,229 @@ func intList(l []int) string {
 		s[i] = fmt.Sprint(x)
 	}
 	return "[" + strings.Join(s, ", ") + "]"
+}
+
+// ---------------------------------------------------------------- constant dump (C20)
+
+// flatten collects the integer leaves reachable from a value, following pointers and slices (each cell once).
+func flatten(v Value, seen map[*Cell]bool, out *[]string, ok *bool) {
+	switch x := v.(type) {
+	case Conc:
+		*out = append(*out, x.v.String())
+	case AggV:
+		for _, e := range x.elems {
+			flatten(e, seen, out, ok)
+		}
+	case PtrV:
+		flattenCell(x.c, seen, out, ok)
+	case SliceV:
+		for _, c := range x.cells {
+			flattenCell(c, seen, out, ok)
+		}
+	case NilV, nil:
+	case Unknown:
+		if strings.HasPrefix(x.why, "package-level variable") && zeroUnwritten {
+			// never stored to by a COMPLETED initialiser: the Go zero value
+			*out = append(*out, "0")
+		} else {
+			*ok = false
+		}
+	case FuncV, *ssa.Builtin:
+	default:
+		*ok = false
+	}
+}
+
+var zeroUnwritten bool
+
+// witness search state (set by -witness)
+var concreteInputs []uint64
+var lastTrace []string
+var initCompleteGlobal bool
+
+func flattenCell(c *Cell, seen map[*Cell]bool, out *[]string, ok *bool) {
+	if seen[c] {
+		return
+	}
+	seen[c] = true
+	if isAgg(c.typ) {
+		for _, k := range c.kids {
+			flattenCell(k, seen, out, ok)
+		}
+		return
+	}
+	flatten(c.val, seen, out, ok)
+}
+
+func dumpGlobals(repo, module, spec, leanDir string) {
+	os.MkdirAll(leanDir, 0o755)
+	old, _ := filepath.Glob(filepath.Join(leanDir, "Consts_*.lean"))
+	for _, f := range old {
+		os.Remove(f)
+	}
+	exit := 0
+	for _, triple := range strings.Split(spec, ",") {
+		f := strings.Split(triple, ":")
+		pkgPath, tags, group := f[0], f[1], f[2]
+		cfg := &packages.Config{Mode: packages.LoadAllSyntax, Dir: repo, BuildFlags: []string{"-tags=" + tags},
+			Env: append(os.Environ(), "GOFLAGS=-mod=mod", "GOPROXY=off", "GOSUMDB=off", "GOTOOLCHAIN=local")}
+		pkgs, err := packages.Load(cfg, module+"/"+pkgPath)
+		var sb strings.Builder
+		fmt.Fprintf(&sb, "/- GENERATED by go2ir -globals from %s (tags %q): package-level variables after interpreting the initialisers.\n   Integer leaves in declaration order, pointers and slices followed. Do not edit, never committed. -/\nnamespace Voi.Gen.Consts.%s\n\n", pkgPath, tags, group)
+		if err != nil || len(pkgs) != 1 || len(pkgs[0].Errors) > 0 {
+			fmt.Fprintf(&sb, "def load_failed : String := %q\n", fmt.Sprint(err))
+			exit = 1
+		} else {
+			prog, _ := ssautil.AllPackages(pkgs, ssa.InstantiateGenerics)
+			prog.Build()
+			globals := map[*ssa.Global]*Cell{}
+			var order []*ssa.Package
+			seenP := map[*types.Package]bool{}
+			var visit func(p *types.Package)
+			visit = func(p *types.Package) {
+				if seenP[p] {
+					return
+				}
+				seenP[p] = true
+				for _, imp := range p.Imports() {
+					visit(imp)
+				}
+				if strings.HasPrefix(p.Path(), module) {
+					if sp := prog.Package(p); sp != nil {
+						order = append(order, sp)
+					}
+				}
+			}
+			visit(pkgs[0].Types)
+			zeroUnwritten = true
+			for _, sp := range order {
+				if e := runInit(prog, sp, globals, module); e != "" {
+					zeroUnwritten = false
+					fmt.Fprintf(os.Stderr, "go2ir: init of %s (tags %q) stopped: %s\n", sp.Pkg.Path(), tags, e)
+					fmt.Fprintf(&sb, "-- init of %s stopped: %s\n", sp.Pkg.Path(), strings.ReplaceAll(e, "\n", " "))
+				}
+			}
+			spkg := prog.Package(pkgs[0].Types)
+			var names []string
+			for n, m := range spkg.Members {
+				if _, ok := m.(*ssa.Global); ok && n != "init$guard" {
+					names = append(names, n)
+				}
+			}
+			sort.Strings(names)
+			byBody := map[string]string{}
+			for _, n := range names {
+				g := spkg.Members[n].(*ssa.Global)
+				c, okc := globals[g]
+				if !okc && zeroUnwritten {
+					// never touched by any completed initialiser: the zero value
+					c, okc = newCell(g.Type().(*types.Pointer).Elem()), true
+				}
+				var out []string
+				ok := okc
+				if okc {
+					flattenCell(c, map[*Cell]bool{}, &out, &ok)
+				}
+				lean := strings.ReplaceAll(n, "$", "_")
+				if !ok {
+					fmt.Fprintf(&sb, "def %s_unavailable : String := \"not computed by the interpreted initialiser\"\n", lean)
+					continue
+				}
+				if len(out) == 0 {
+					continue
+				}
+				body := strings.Join(out, ", ")
+				if prev, dup := byBody[body]; dup && len(out) > 64 {
+					fmt.Fprintf(&sb, "def %s : List Nat := %s  -- same object / same content\n", lean, prev)
+					continue
+				}
+				if len(out) > 5000 && strings.HasPrefix(n, "packed") {
+					// the packed byte tables: their content is consumed by the interpreted unpack code, whose results are dumped
+					fmt.Fprintf(&sb, "def %s_size : Nat := %d\n", lean, len(out))
+					continue
+				}
+				byBody[body] = lean
+				fmt.Fprintf(&sb, "set_option maxRecDepth 1000000 in\ndef %s : List Nat := [%s]\n", lean, body)
+			}
+		}
+		fmt.Fprintf(&sb, "\nend Voi.Gen.Consts.%s\n", group)
+		if err := os.WriteFile(filepath.Join(leanDir, "Consts_"+group+".lean"), []byte(sb.String()), 0o644); err != nil {
+			panic(err)
+		}
+	}
+	os.Exit(exit)
+}
+
+// witnessSearch runs the target on pairs of concrete assignments to its (secret) inputs and compares the sequence of
+// executed basic blocks and memory indices.  A differing pair is a concrete replay for a constant-time violation.
+func witnessSearch(prog *ssa.Program, pkg *ssa.Package, globals map[*ssa.Global]*Cell, t Target, out string) bool {
+	// number of inputs: one symbolic dry run on a copy is not available (translation fails), so use patterns that repeat
+	pats := [][]uint64{}
+	rnd := uint64(0x9e3779b97f4a7c15)
+	next := func() uint64 {
+		rnd ^= rnd << 13
+		rnd ^= rnd >> 7
+		rnd ^= rnd << 17
+		return rnd
+	}
+	mk := func(f func(i int) uint64) []uint64 {
+		v := make([]uint64, 4099)
+		for i := range v {
+			v[i] = f(i)
+		}
+		return v
+	}
+	pats = append(pats, mk(func(i int) uint64 { return 0 }), mk(func(i int) uint64 { return ^uint64(0) }),
+		mk(func(i int) uint64 { return 1 }), mk(func(i int) uint64 { return uint64(i*37 + 5) }))
+	for k := 0; k < 6; k++ {
+		pats = append(pats, mk(func(i int) uint64 { return next() }))
+	}
+	type run struct {
+		in    []uint64
+		trace []string
+		err   string
+	}
+	var runs []run
+	for _, p := range pats {
+		concreteInputs = p
+		r := translate1(prog, pkg, globals, t, false)
+		runs = append(runs, run{p, lastTrace, r.Err})
+		concreteInputs = nil
+	}
+	for i := 1; i < len(runs); i++ {
+		a, b := runs[0], runs[i]
+		n := len(a.trace)
+		if len(b.trace) < n {
+			n = len(b.trace)
+		}
+		d := -1
+		for j := 0; j < n; j++ {
+			if a.trace[j] != b.trace[j] {
+				d = j
+				break
+			}
+		}
+		if d < 0 && len(a.trace) != len(b.trace) {
+			d = n
+		}
+		if d >= 0 {
+			var sb strings.Builder
+			fmt.Fprintf(&sb, "# constant-time witness for %s (%s, tags %q)\n# the two secret assignments below drive the code through different control flow / memory indices\n", t.Name, t.Fn, t.Tags)
+			ev := func(tr []string, j int) string {
+				if j < len(tr) {
+					return tr[j]
+				}
+				return "<end of trace>"
+			}
+			fmt.Fprintf(&sb, "# first divergence at event %d: run A executes %s, run B executes %s\n", d, ev(a.trace, d), ev(b.trace, d))
+			fmt.Fprintf(&sb, "# trace lengths: A=%d B=%d\n", len(a.trace), len(b.trace))
+			fmt.Fprintf(&sb, "CT witness %s@%s\nA: every symbolic input i takes pattern value %v…\nB: every symbolic input i takes pattern value %v…\n", t.Name, t.Tags, a.in[:4], b.in[:4])
+			if out != "" {
+				os.WriteFile(out, []byte(sb.String()), 0o644)
+			}
+			fmt.Print(sb.String())
+			return true
+		}
+	}
+	return false
 }
